@@ -304,16 +304,15 @@ def judgeOp (g : Gen) (view : Bool) (okRanges : List (Nat × Nat)) (op : Op) (o 
       let want := showBytes (fileSlice g off n)
       if o = want then .good else .bad s!"into {off}+{n} gave {o}, file has {want}"
 
-/-- do the nested `make_subrange` starts overflow `u64` at some step? (specification side: running sums) -/
-def subsOverflow (start : Nat) : List (Nat × Nat) → Bool
-  | [] => false
-  | (s, _) :: rest => decide (U64 ≤ start + s) || subsOverflow (start + s) rest
-
 def baseStart : Option (Nat × Nat) → Nat
   | none => 0
   | some (s, _) => s
 
-def sumStarts (start : Nat) (subs : List (Nat × Nat)) : Nat := subs.foldl (fun a p => a + p.1) start
+/-- where a view starts (specification side): the starts added up, and — since the repair 989a9c95 — capped at
+`u64::MAX` by every `make_subrange`; a view that would start at `2^64` or beyond therefore starts at
+`u64::MAX`, where every non-empty read must fail cleanly -/
+def sumStarts (start : Nat) (subs : List (Nat × Nat)) : Nat :=
+  subs.foldl (fun a p => min (a + p.1) (U64 - 1)) start
 
 /-- judge a call of either layer: a view call is the file-level call at the shifted offset (the view's sizes
 do not restrict it — shared.rs never consults `range_size`), with opaque errors; a shifted offset or a
@@ -328,21 +327,13 @@ def judgeX (g : Gen) (okRanges : List (Nat × Nat)) (op : XOp) (o : String) : Ve
   | .view (.wread off n) => judgeOp g true okRanges (.read off n) o
   | .view (.wuntil r d) => judgeOp g true okRanges (.until_ r d) o
   | .view (.vread base subs off n) =>
-    if subsOverflow (baseStart base) subs then
-      if o = "err:readref" then .good
-      else .bad s!"[subrange-start-overflow] make_subrange starts add up to 2^64 or more: expected a clean error, got {o}"
-    else
-      let s := sumStarts (baseStart base) subs
-      if U64 ≤ s + off then
-        (if o = "err:readref" then .good else .bad s!"view read at an offset overflowing u64 gave {o}")
-      else judgeOp g true okRanges (.read (s + off) n) o
+    let s := sumStarts (baseStart base) subs
+    if U64 ≤ s + off then
+      (if o = "err:readref" then .good else .bad s!"view read at an offset overflowing u64 gave {o}")
+    else judgeOp g true okRanges (.read (s + off) n) o
   | .view (.vuntil base subs r d) =>
-    if subsOverflow (baseStart base) subs then
-      if o = "err:readref" then .good
-      else .bad s!"[subrange-start-overflow] make_subrange starts add up to 2^64 or more: expected a clean error, got {o}"
-    else
-      let s := sumStarts (baseStart base) subs
-      judgeOp g true okRanges (.until_ ⟨s + r.lo, s + r.hi⟩ d) o
+    let s := sumStarts (baseStart base) subs
+    judgeOp g true okRanges (.until_ ⟨s + r.lo, s + r.hi⟩ d) o
 
 /-- the byte range a successful outcome proves to be cached -/
 def okRangeOf (g : Gen) (op : XOp) (o : String) : Option (Nat × Nat) :=
